@@ -463,6 +463,9 @@ Proof.
   exists (Some c). split; [reflexivity|]. exists (dt_cdata d - 1). exact EC.
 Qed.
 
+Lemma content_mode_ok t : etype_ok t -> exists m, content_mode T t = Val m.
+Proof. intros E. destruct (etype_dt t E) as (d & ED). unfold content_mode, dt. rewrite ED. cbn. eauto. Qed.
+
 Lemma is_ref_ok t : etype_ok t -> exists b, is_ref T t = Val b.
 Proof. intros E. destruct (etype_dt t E) as (d & ED). unfold is_ref, dt. rewrite ED. cbn. eauto. Qed.
 
